@@ -14,7 +14,7 @@ PROP_ID = 'C01'
 TECHNIQUE = 'runtime post-condition monitor vs exact propagator (60-digit mpmath coefficients, 80-bit recurrence)'
 RULE = ('cases = calls of response_series / nigam_and_jennings_response / AccSignal.response_series on generated records '
         '(14 shape classes incl. impulses, hats, steps, zero-padded, alternating, integer-valued, windows of the shipped '
-        'ground motion; lengths 2..400 quick / up to 20000 thorough; amplitudes 1e-12..1e12; float64/float32/int64/narrow and unsigned int/list containers, '
+        'ground motion; lengths 2..400 quick / up to 20000 thorough; amplitudes 1e-12..1e12 and (4 %) extreme scales 1e+-165..1e+-220 where squares of samples under/overflow; float64/float32/int64/narrow and unsigned int/list containers, '
         'strided, negative-stride and read-only views; integer-valued period containers; xi=0 as Python int; positional and keyword calls) x dt log-uniform [1e-3,1], nice decimals and extreme time bases 1e-9..1e3 x 1..8 periods per call (4 %: 31..256 periods at and around powers of two, first/last/block-boundary rows always judged) with T/dt log-uniform over [0.2,2e4] '
         'plus pinned {0.2,0.5,1,2,5.9,6,6.1,20,2e4}, optional leading 0 x xi in {0,.02,.05,.2,.5,.9,.99,1-1e-6,1-1e-9,'
         '1-1e-12,U(0,1)}; object-level histories call, mutate values, call again. distinct = digest(record, dt, periods, '
@@ -208,9 +208,9 @@ def draw_case(rng, tier):
         r = rng.random()
         n = int(rng.choice([2, 3, 4, 5, 8])) if r < 0.15 else (int(rng.integers(9, 401)) if r < 0.8 else
                                                                 (int(rng.integers(400, 3000)) if r < 0.97 else int(rng.integers(3000, 20001))))
-    x, cls = gen.record(rng, n, wide=True)
+    x, cls = gen.record(rng, n, wide=True, extreme=True)
     dt = gen.dt(rng, 'log' if rng.random() < 0.6 else 'nice')
-    if rng.random() < 0.15:     # extreme time bases (nanoseconds .. kiloseconds): "all dt > 0"
+    if rng.random() < 0.15 and 'extreme-scale' not in cls:     # extreme time bases (nanoseconds .. kiloseconds): "all dt > 0"
         dt = float(10 ** (rng.uniform(-9, -3) if rng.random() < 0.6 else rng.uniform(0, 3)))
     # the LENGTH of the period list is an input dimension of its own: 1 (a scalar-like call), 2..8, and 4 % of the cases at and
     # around the block sizes a vectorised implementation might use
@@ -246,7 +246,9 @@ def run_shard(ctx):
         entry = int(rng.integers(3))
         cont, ck = gen.container(rng, x, kinds=('f64', 'f64', 'f64', 'f32', 'i64', 'list'))
         r = rng.random()
-        if r < 0.06:
+        if 'extreme-scale' in cls:
+            cont, ck = ([float(t) for t in x], 'list') if r < 0.3 else (np.array(x, dtype=float), 'f64')
+        elif r < 0.06:
             cont, ck = gen.narrow_int(rng, len(x))
         elif r < 0.14:
             cont, ck = gen.view_form(rng, np.array(x, dtype=float))
